@@ -205,7 +205,7 @@ def param_roles(f, pf):
         base = f.norm(ty).lstrip('&').strip()
         if base.startswith('mut '):
             base = base[4:]
-        ti = f.types.get(base.split('<')[0]) or {}
+        ti = f.type_info(base) or {}
         if ti.get('kind') == 'adt' and ti.get('local') and len(ti.get('variants') or []) == 1:
             for fld in ti['variants'][0]['fields']:
                 r = _role_of_type(fld['ty'])
@@ -225,7 +225,7 @@ def role_origin(f, t, body_caller, tt, role, pf):
     is_ref = pf.local_ty(idx + 1).startswith('&')
     if base.startswith('mut '):
         base = base[4:]
-    ti = f.types.get(base.split('<')[0]) or {}
+    ti = f.type_info(base) or {}
     flds = [x['name'] for x in ti['variants'][0]['fields']] if ti.get('variants') else []
     p = list(a['p']) + (['deref'] if is_ref else [])
     for nm in path:
@@ -311,7 +311,9 @@ def _partial_cmp_by_value(f, pcb):
         r = sx.deep(o.st, o.ret)
         if isinstance(r, tuple) and r[0] == 'struct' and r[2] is not None and r[2][0] == 'None':
             # must be a path on which one of the scores is None
-            if not any(c[0] == 'switch' and c[2] == 0 and 'State::score' in repr(c[1]) for c in o.pc):
+            if not any(((c[0] == 'switch' and c[2] == 0) or (c[0] == 'switch-not' and 1 in c[2])) and
+                       isinstance(c[1], tuple) and c[1][:2] == ('app', 'discr') and
+                       c[1][2][0][:2] == ('app', 'State::score') for c in o.pc):
                 return False, 'partial_cmp returns None although both scores are defined'
             continue
         if isinstance(r, tuple) and r[0] == 'app' and r[1].endswith('partial_cmp') and len(r[2]) == 2:
@@ -410,6 +412,69 @@ def _ordering(ctx):
     rep.floor('R2', 'state types with a checked ordering', n, 2)
 
 
+def _wyckoff_by_value(f, ws, agg):
+    """A fill loop instead of map/collect: `for op in group.wyckoff_str { v.push(from_operations(op)?) }`.  By value: the Vec that
+    becomes `symmetries` starts empty, is pushed to at one site inside one loop that ranges over all of group.wyckoff_str, every
+    iteration either pushes the Ok payload of from_operations(its own item) or leaves the function with an error."""
+    from ..nest import Nest
+    from ..lineage import significant
+    from ..sym import SYM
+    n = Nest(f, ws, yields=False)
+    t = n.tr
+    pushes = n.calls(lambda tt: call_matches(tt, 'Vec::<T, A>::push'))
+    if len(pushes) != 1:
+        return False, '%d push sites' % len(pushes)
+    pbi, pt = pushes[0]
+    around = n.loops_around(pbi)
+    if len(around) != 1:
+        return False, 'the push is inside %d loops' % len(around)
+    lp = around[0]
+    src = lp['src']
+    if not (src['o'] == 'arg' and src['l'] == 1 and field_path(src['p']) == ['wyckoff_str']) or significant(lp['chain']):
+        return False, 'the loop does not range over all of group.wyckoff_str (chain %s)' % (lp['chain'],)
+    if not n.always_entered(lp):
+        return False, 'the loop is skipped on some path'
+    # the pushed-to Vec is what the literal stores, and it starts empty
+    vec_l = t.origin(pt['args'][0]).get('l')
+    agg2 = None
+    for bb in n.b.blocks:
+        for st in bb['stmts']:
+            if st['s'] == 'assign' and st['rv']['r'] == 'aggr' and st['rv'].get('adt', '').endswith('wallpaper::WyckoffSite'):
+                agg2 = st['rv']
+    if agg2 is None:
+        return False, 'no WyckoffSite literal'
+    so = t.origin(dict(zip(agg2['fields'], agg2['ops']))['symmetries'])
+    if so.get('l') != vec_l and not (so['o'] == 'call' and vec_l is not None and
+                                      t.origin({'k': 'copy', 'l': vec_l, 'p': []}).get('term') is so.get('term')):
+        return False, 'the filled Vec is not the one stored in symmetries'
+    init = t.origin({'k': 'copy', 'l': vec_l, 'p': []}) if vec_l is not None else {'o': '?'}
+    if not (init['o'] == 'call' and call_matches(init['term'], 'Vec::<T>::new', 'Vec::<T>::with_capacity')):
+        return False, 'the filled Vec does not start empty'
+    try:
+        sx, outs = n.iteration(lp, {pbi}, opaque=('from_operations',))
+    except Exception as ex:      # noqa: BLE001
+        return False, 'one iteration could not be evaluated (%s)' % str(ex)[:60]
+    if not outs or sx.aborted:
+        return False, 'one iteration is not loop-free'
+    item = SYM('item%d' % lp['header'])
+    n_hit = 0
+    for o in outs:
+        if isinstance(o.ret, tuple) and o.ret[0] == 'stopped' and o.ret[1] == pbi:
+            v = n.arg_values(sx, o, pbi)[1]
+            want = ('app', 'field:0', (('app', 'downcast:Ok', (('app', 'Transform2::from_operations', (item,)),)),))
+            if v != want:
+                return False, 'the pushed value is %s, not the transform parsed from the loop item' % (repr(v)[:100],)
+            n_hit += 1
+            continue
+        r = sx.deep(o.st, o.ret) if isinstance(o.ret, tuple) else o.ret
+        if isinstance(r, tuple) and r[0] == 'struct' and r[2] is not None and r[2][0] == 'Err':
+            continue       # `?` on a string that does not parse
+        return False, 'an iteration neither pushes nor returns an error'
+    if n_hit < 1:
+        return False, 'the push is never reached'
+    return True, 'symmetries = [from_operations(s)? for s in group.wyckoff_str] (fill loop, by value)'
+
+
 def _carried(ctx):
     rep, f = ctx.rep, ctx.facts
     # Wallpaper::new copies name and family
@@ -454,10 +519,19 @@ def _carried(ctx):
             names = [c[0] for c in chain]
             allowed = all(n in ('collect', 'map', 'iter', 'into_iter', 'deref', 'cloned', 'copied') for n in names)
             srcok = src['o'] == 'arg' and field_path(src['p']) == ['wyckoff_str']
-            rep.check(allowed and srcok and 'map' in names and 'collect' in names, 'R5', 'WyckoffSite::new-maps-every-string',
-                      where(ws), 'symmetries = group.wyckoff_str %s' % list(reversed(names)),
-                      'the operation strings pass through an adaptor that can drop/duplicate entries, or do not come '
-                      'from group.wyckoff_str: chain=%s source=%s' % (names, field_path(src.get('p', []))))
+            chain_ok = allowed and srcok and 'map' in names and 'collect' in names
+            if not chain_ok:
+                okv, whyv = _wyckoff_by_value(f, ws, agg)
+                if okv:
+                    rep.ok('R5', 'WyckoffSite::new-maps-every-string', where(ws), whyv)
+                    rep.ok('R5', 'each-string-parsed-by-from_operations', where(ws), whyv)
+                    chain = []
+                    chain_ok = None
+            if chain_ok is not None:
+                rep.check(chain_ok, 'R5', 'WyckoffSite::new-maps-every-string',
+                          where(ws), 'symmetries = group.wyckoff_str %s' % list(reversed(names)),
+                          'the operation strings pass through an adaptor that can drop/duplicate entries, or do not come '
+                          'from group.wyckoff_str: chain=%s source=%s' % (names, field_path(src.get('p', []))))
             # the closure parses its own item
             for nm, tt, bi in chain:
                 if nm == 'map':
@@ -581,7 +655,18 @@ def _main(ctx):
     wg_bb = gw[0][0]
     pf = pipeline_fn(f)[0]
     sites = [(bi, tt) for bi, tt in m.calls() if (callee_name(tt) or '') == pf.path]
-    rep.floor('R5', 'calls of the pipeline function in main', len(sites), 5, where(m))
+    # (5 call sites on the pinned tree, one per force x shape arm; arms may share a call — what must not get lost is a state kind)
+    kinds = set()
+    for bi, tt in sites:
+        for a in tt['args']:
+            if 'l' not in a:
+                continue
+            oo, _st = through(t, a)
+            if oo['o'] == 'call' and call_matches(oo['term'], '::from_group'):
+                cbf = f.body_of_fnconst(oo['term']['func'])
+                kinds.add(f.norm(cbf.impl_self_adt) if cbf is not None and cbf.impl_self_adt else callee_name(oo['term']))
+    rep.floor('R5', 'calls of the pipeline function in main', len(sites), 2, where(m))
+    rep.floor('R5', 'state kinds handed to the pipeline function', len(kinds), 2, where(m))
     # parameter roles of the pipeline function by type (not by position: an added flag must not shift them)
     role = param_roles(f, pf)
     if not rep.check(set(role) == {'outfile', 'state', 'optimisation', 'replications'}, 'R5', 'pipeline-parameter-roles', where(pf),
